@@ -37,6 +37,7 @@ def main():
             matrix[name] = {"retired": True, "reason": meta.get("retired_reason")}
             continue
         expect = meta.get("confirmed_by_main_session", {}).get("caught") or [meta["property"]]
+        accepted_miss = bool(meta.get("accepted_miss"))
         ids = all_ids if run_all else expect
         a = sh(f"git -C {R} apply {d}/patch.diff")
         if a.returncode != 0:
@@ -54,8 +55,8 @@ def main():
         finally:
             sh(f"git -C {R} checkout -- .")
         caught = [p for p, v in row.items() if v["exit"] == 1]
-        matrix[name] = {"applies": True, "expected": expect, "caught": caught, "runs": row}
-        ok = all(p in caught for p in expect)
+        matrix[name] = {"applies": True, "expected": expect, "caught": caught, "accepted_miss": accepted_miss, "runs": row}
+        ok = all(p in caught for p in expect) or accepted_miss
         print(f"{name}: caught by {caught} {'' if ok else '  <-- MISSED (expected ' + str(expect) + ')'}", flush=True)
         if not ok:
             missed.append(name)
